@@ -74,6 +74,34 @@ theorem C14_moral_covers_family (g : DG) (c : Var) (hc : c ∈ g.nodes) (u v : V
       refine List.mem_filterMap.mpr ⟨v, hv, ?_⟩
       simp [hlt]
 
+/-- **moralisation adds nothing else**: an edge of the moral graph is an edge of the DAG (in one of
+    the two directions) or joins two parents of a common child -/
+theorem C14_moral_only_family (g : DG) (u v : Var) (h : (u, v) ∈ g.moralEdges) :
+    (u, v) ∈ g.edges ∨ (v, u) ∈ g.edges ∨
+      ∃ c ∈ g.nodes, u ∈ g.parents c ∧ v ∈ g.parents c ∧ u < v := by
+  unfold DG.moralEdges at h
+  simp only [List.mem_eraseDups, List.mem_append] at h
+  rcases h with h | h
+  · obtain ⟨e, he, heq⟩ := List.mem_map.mp h
+    obtain ⟨e1, e2⟩ := e
+    split at heq
+    · left
+      have : e1 = u ∧ e2 = v := by simpa using heq
+      rw [← this.1, ← this.2]; exact he
+    · right; left
+      have : e2 = u ∧ e1 = v := by simpa using heq
+      rw [← this.1, ← this.2]; exact he
+  · right; right
+    obtain ⟨c, hc, h⟩ := List.mem_flatMap.mp h
+    obtain ⟨p, hp, h⟩ := List.mem_flatMap.mp h
+    obtain ⟨q, hq, h⟩ := List.mem_filterMap.mp h
+    split at h
+    · next hlt =>
+      have : p = u ∧ q = v := by simpa using h
+      rw [← this.1, ← this.2]
+      exact ⟨c, hc, hp, hq, hlt⟩
+    · simp at h
+
 /-- BN → MN keeps the list of factors, so the joint (and Z = Σ joint) is unchanged whatever
     order the factors are stored in -/
 theorem C14_bn_to_mn_measure (cpds factors : List Factor) (h : factors.Perm cpds) (a : Asg) :
